@@ -102,6 +102,12 @@ class CallMixin:
                 return [(p, SV("val", fz(*zs)))]
             if recv.tag in ("cls", "clsof"):
                 return self.call_class_attr(recv, name, args, kwargs, p, R, node)
+        if f.tag == "extfn":  # external module function: assumed to have no effect on the tree
+            mod, name = f.z
+            self.assumed_external.add(f"{mod}.{name}")
+            if (mod, name) in (("warnings", "warn"),):
+                return [(p, NoneV)]
+            raise Unsupported(f"external function {mod}.{name} (line {node.lineno})")
         if f.tag == "bound":  # bound repo method
             recv, cls, fd_qual = f.z
             return self.call_repo(fd_qual, recv, args, kwargs, p, R, node)
@@ -257,8 +263,10 @@ class CallMixin:
                 return L.v_is_bool(v.z)
             if name in NODE_CLASSES + TREE_CLASSES + ("dict", "list", "tuple", "Path"):
                 return z3.BoolVal(False) if not (v.extra and v.extra.get("maybe_" + name)) else z3.Function("val_is_" + name, L.Val, L.B)(v.z)
-            if name in EXC_CLASSES + ("IterationControl",):
-                return z3.Function("val_is_exc_" + name, L.Val, L.B)(v.z)
+            if name == "IterationControl":
+                return Or(*[L.exc_pred(n)(v.z) for n in ("SkipBranch", "SelectBranch", "StopTraversal")])
+            if name in EXC_CLASSES:
+                return L.exc_pred(name)(v.z)
             return z3.Function("val_isinstance_" + name, L.Val, L.B)(v.z)
         raise Unsupported(f"isinstance({t}, {name})")
 
@@ -572,10 +580,14 @@ class CallMixin:
         orc = L.oracle_fn(key)
         res = orc(fz, *[z for _, z in zs])
         p.ghost.setdefault("cb_calls", []).append((fz, [z for _, z in zs], node.lineno))
+        prev = list(p.ghost.get("cb_events", []))
         bad = p.fork()
+        bad.ghost["cb_events"] = prev + [("raise", "UserError", None)]
         R.append((bad, ExcV("UserError", site=f"L{node.lineno}/callback")))
-        for ctl in ("SkipBranch", "SelectBranch", "StopTraversal", "StopIteration"):
+        for ctl in L.CTRL:
             q = p.fork()
             val = SV("val", L.fresh("excval", L.Val))
+            q.ghost["cb_events"] = prev + [("raise", ctl, val)]
             R.append((q, ExcV(ctl, value=val, site=f"L{node.lineno}/callback")))
+        p.ghost["cb_events"] = prev + [("return", res)]
         return [(p, SV("val", res, extra={"maybe_exc": True}))]
